@@ -109,7 +109,8 @@ ASSUME /\ Cardinality(AllSigAlgs) = 12 /\ Cardinality(AllKmAlgs) = 14 /\ Cardina
        /\ \A a \in AllKmAlgs, e \in AllEncs : \E k \in KeyKinds : KmApplicable(a, e, k)
        /\ Deviation \in {"none", "aad-not-authenticated", "reserialised-header", "inflate-skipped",
                          "open-consumes-object", "shared-entry-header",   \* these two: JoseHist.tla
-                         "unpad-greedy", "key-resized"}
+                         "unpad-greedy", "key-resized",
+                         "producer-header-cached"}                        \* JoseProd.tla
 
 \* ------------------------------------------------------------ value classes
 \* The property quantifies over payloads and keys, and some VALUES are special to the encodings on the way:
